@@ -28,6 +28,7 @@ import (
 	"io"
 	"net/http"
 	"net/url"
+	"slices"
 	"strings"
 	"time"
 
@@ -215,7 +216,19 @@ func executeOCSPCheck(ctx context.Context, cert, issuer *x509.Certificate, serve
 		return nil, GenericError{Err: errors.New("OCSP signature required")}
 	}
 
-	return ocsp.ParseResponseForCert(body, cert, issuer)
+	ocspResp, err := ocsp.ParseResponseForCert(body, cert, issuer)
+	if err != nil {
+		return nil, err
+	}
+
+	// ParseResponseForCert accepts a response signed by any certificate that
+	// the issuer issued. A delegated responder certificate must in addition
+	// be authorized for OCSP signing. (See RFC 6960, Section 4.2.2.2)
+	if responder := ocspResp.Certificate; responder != nil && !responder.Equal(issuer) &&
+		!slices.Contains(responder.ExtKeyUsage, x509.ExtKeyUsageOCSPSigning) {
+		return nil, GenericError{Err: errors.New("OCSP response is signed by a certificate that is not authorized for OCSP signing")}
+	}
+	return ocspResp, nil
 }
 
 func postRequest(ctx context.Context, req []byte, server string, httpClient *http.Client) (*http.Response, error) {
